@@ -656,6 +656,12 @@ impl ConnState {
 
     // run pong timeout process - that send timeout aftet some time.
     pub(super) fn run_pong_timeout(&mut self, config: &MainConfig) {
+        // if pong timeout of previous ping is still awaited then keep it - new pong timeout
+        // would cancel previous and silent client would never be disconnected
+        // if pong_timeout is not shorter than ping_timeout.
+        if self.pong_notifier.is_some() {
+            return;
+        }
         let (pong_notifier, pong_receiver) = oneshot::channel();
         self.pong_notifier = Some(pong_notifier);
         tokio::spawn(pong_client_timeout(
